@@ -325,7 +325,7 @@ fn check_grid_build(recs: &[Tags]) -> Verdict {
 
 pub fn run(tier: Tier) -> i32 {
     let mut run = Run::new("C19", tier, "exploration");
-    run.rule = "every value of Σ and U: the 18 predicates, HaystackKind::from, all 20 typed TryFrom<&Value> conversions, the 14 typed dict getters + 3 has_* (key present with that value / absent); all 256 u8 codes and all 18 names plus every near-miss name; every list of <= 4 (quick 3) records over 19 records (every key set over {a,b,c,d} + mixed-case names) through the three grid constructors, and records of every width 1..72, 100, 127..129, 255..257 in six list shapes (same record twice, one tag fewer then one more, overlapping halves, an empty record in the middle, even/odd/all, narrow-wide-narrow); non-trivial = distinct value / name / record list".into();
+    run.rule = "every value of Σ and U: the 18 predicates, HaystackKind::from, all 20 typed TryFrom<&Value> conversions, the 14 typed dict getters + 3 has_* (key present with that value / absent); all 256 u8 codes and all 18 names plus every near-miss name; every list of <= 4 (quick 3) records over 19 records (every key set over {a,b,c,d} + mixed-case names) through the three grid constructors, and records of every width 1..72, 100, 127..129, 255..257 in six list shapes (same record twice, one tag fewer then one more, overlapping halves, an empty record in the middle, even/odd/all, narrow-wide-narrow), and lists of every length 1..72, 100, 127..129, 255..257, 1000 in four shapes (columns first seen in the last records and sorting before / between / after the known ones, columns discovered in descending order, the widest record in the middle, a rotating key set); non-trivial = distinct value / name / record list".into();
     crate::engine::quiet_panics();
     let mut l0 = Local::new();
     if let Err(m) = guarded(|| check_codes(&mut l0)) {
@@ -407,6 +407,32 @@ pub fn run(tier: Tier) -> i32 {
             local.eval();
             local.nontrivial(&format!("wide{n}:{}", rs.len()));
             local.count("wide-grid-builds");
+            let case = json!({"records": rs.iter().map(|r| to_json(&V::Dict(r.clone()))).collect::<Vec<_>>()});
+            match guarded(|| check_grid_build(&rs)) {
+                Ok(Ok(())) => local.outcome("ok"),
+                Ok(Err((stage, d))) => local.fail(&stage, case, d),
+                Err(p) => local.fail("panic:grid-build", case, p),
+            }
+        }
+    });
+    run.absorb(l);
+    // many records: every count 1..=72 and around 2^7, 2^8, 1000; columns first seen in the last
+    // records and sorting before / between / after the known ones; columns discovered in
+    // descending order; the widest record in the middle
+    let counts: Vec<usize> = (1..=72).chain([100, 127, 128, 129, 255, 256, 257, 1000]).collect();
+    let l = par_for(counts.len(), |ci, local| {
+        let n = counts[ci];
+        let base = |i: usize| mk_tags(&[("m", V::num(i as f64)), ("z", V::Marker)]);
+        let shapes: Vec<Vec<Tags>> = vec![
+            (0..n).map(base).chain([mk_tags(&[("a", V::Marker)]), mk_tags(&[("m0", V::num(1.0))]), mk_tags(&[("zz", V::Marker)]), mk_tags(&[("a", V::num(2.0)), ("n", V::Marker)])]).collect(),
+            (0..n).map(|i| mk_tags(&[(format!("t{:04}", n - i).as_str(), V::num(i as f64))])).collect(),
+            (0..n).map(|i| if i == n / 2 { mk_tags(&[("a", V::Marker), ("b", V::Marker), ("m", V::Marker), ("y", V::Marker), ("zz", V::Marker)]) } else { base(i) }).collect(),
+            (0..n).map(|i| mk_tags(&[(format!("k{}", i % 7).as_str(), V::num(i as f64)), (format!("u{i}").as_str(), V::Marker)])).collect(),
+        ];
+        for rs in shapes {
+            local.eval();
+            local.nontrivial(&format!("many{n}:{}", rs.len()));
+            local.count("many-record-grid-builds");
             let case = json!({"records": rs.iter().map(|r| to_json(&V::Dict(r.clone()))).collect::<Vec<_>>()});
             match guarded(|| check_grid_build(&rs)) {
                 Ok(Ok(())) => local.outcome("ok"),
